@@ -216,7 +216,8 @@ ExpAction(c, i) ==
   IF Offered(c.doc) = <<>> THEN "noupdate"
   ELSE IF c.decision = "deferred" THEN (IF IsOffered(a) THEN "deferred" ELSE "any")
   ELSE IF c.decision = "denied" THEN (IF IsOffered(a) THEN "denied" ELSE "any")
-  ELSE IF IsOffered(a) THEN ResAction(c.results[OfferedRank(c.doc, i)])
+  \* (total: an offered app without an installer result - the installer was never run - matches no reported action)
+  ELSE IF IsOffered(a) THEN (IF OfferedRank(c.doc, i) <= Len(c.results) THEN ResAction(c.results[OfferedRank(c.doc, i)]) ELSE "?")
   ELSE "noupdate"
 
 \* the error class the result must carry when the check failed
